@@ -74,6 +74,15 @@ class ADrop(Mapping):
     def __iter__(self):
         return iter(self._d)
 
+    def __aiter__(self):
+        # the asynchronous counterpart of __iter__ (keys), as lazily loading collections
+        # offer it; the engine documents that loops do not use it
+        async def keys():
+            for k in list(self._d):
+                yield k
+
+        return keys()
+
     def __len__(self) -> int:
         return len(self._d)
 
